@@ -67,8 +67,14 @@ def plan(seed, subbatch):
             # a member's own timeframe manager is derived from the already trimmed base candles at
             # construction (known finding C08/construction-trim): not this property's subject
             route = "hexital_level"
+    # the caller may hand the same Candle OBJECTS to several consumers: an upstream Heikin-Ashi consumer
+    # without timeframe converts them in place before the subject (which has a timeframe) gets them
+    shared = tf is not None and subbatch == "faulty" and cfg.random() < 0.25
+    if shared:
+        fired["candle_objects_shared_with_upstream_consumer"] += 1
     return {"format": 1, "property": ID, "seed": seed, "subbatch": subbatch,
-            "config": {"route": route, "tf": tf, "base_s": base_s, "spec": spec, "lifespan_s": lifespan},
+            "config": {"route": route, "tf": tf, "base_s": base_s, "spec": spec, "lifespan_s": lifespan,
+                       "shared_objects": shared},
             "ops": [{"op": "new", "preload": pre}] + ops, "fired": dict(fired)}
 
 
@@ -85,6 +91,12 @@ def execute(trace, ctx=None):
         lifespan = cfg.get("lifespan_s")
         life_armed = True
         readings_purged = False
+        upstream = None
+        if cfg.get("shared_objects") and tf:
+            from hexital.core.candle_manager import CandleManager
+            from hexital.utils.candlesticks import validate_candlesticktype
+
+            upstream = CandleManager([], candlestick_type=validate_candlesticktype("HA"))
         delivered = []
         subject = view = None
         n_appends = 0
@@ -108,7 +120,10 @@ def execute(trace, ctx=None):
                         continue
                     n_appends += 1 if rows else 0
                     delivered.extend(rows)
-                    run.call(len(delivered), subject.append, mk_candles(rows))
+                    objs = mk_candles(rows)
+                    if upstream is not None and objs:
+                        upstream.append(objs)   # converts the caller's objects in place
+                    run.call(len(delivered), subject.append, objs)
                     if rows:
                         readings_purged = False
                 elif kind in ("purge", "recalculate", "calculate") and route != "manager":
